@@ -1,12 +1,13 @@
 #!/bin/sh
-# tools/try_tie.sh <psi|filters|packet> <repo-dir>: translate <repo-dir>/src with the statement translator
+# tools/try_tie.sh <psi|filters|packet|pes> <repo-dir>: translate <repo-dir>/src with the statement translator
 # into a private directory and check its tie module against it (nothing under /verif/lean is written).
 K=$1; R=${2:-/repo}
 case $K in
   psi) TOOL=gen_psi.py; VAR=VERIF_GEN_PSI_OUT; GEN=PsiGen; TIE=StmtPsi;;
   filters) TOOL=gen_filters.py; VAR=VERIF_GEN_FILTERS_OUT; GEN=FiltersGen; TIE=StmtFilters;;
   packet) TOOL=gen_packet.py; VAR=VERIF_GEN_PACKET_OUT; GEN=PacketGen; TIE=StmtPacket;;
-  *) echo "usage: try_tie.sh psi|filters|packet <repo>"; exit 2;;
+  pes) TOOL=gen_pes.py; VAR=VERIF_GEN_PES_OUT; GEN=PesGen; TIE=StmtPes;;
+  *) echo "usage: try_tie.sh psi|filters|packet|pes <repo>"; exit 2;;
 esac
 T=$(mktemp -d /tmp/tietry.XXXXXX)
 mkdir -p $T/lib
